@@ -14,9 +14,16 @@ Asserted: only ``RpcError`` / ``VersionError`` (typed, answered by ``serve_one``
 serving) or a normal return leave ``_read_request`` — plus ``pa.ArrowInvalid`` when, and only
 when, the Arrow stub itself reports undecodable bytes (answered, then the loop ends: allowed by
 the property).  Nothing but a return leaves ``_maybe_attach_shm`` / ``refresh`` (``serve_one``
-calls them unguarded after validation).  The exception classes the serve loop survives are read
-from the live source of ``RpcServer.serve`` / ``serve_one`` by an AST task so the
-"answered" set used here cannot drift from the code.
+calls them unguarded after validation), and whatever ``refresh`` leaves in the connection's cache
+still lets the next (pointer) request be answered.  *Which* of the two allowed answers a request
+gets (accept vs. typed refusal), the cache policy, attach counts and resource accounting are not
+asserted — C05 does not state them.  The exception classes the serve loop survives are re-read
+from the live source of ``RpcServer.serve`` / ``serve_one`` by a task that also sends the two typed-error
+requests to the real server, so the "answered" set used here cannot drift from the code.
+
+Real replays: always a real ``RpcServer.serve`` over ``os.pipe()``s — the crafted request (after the
+earlier requests of its history, if any) must be answered with a complete IPC stream, and a follow-up
+``add(1, 1)`` on the same connection must get *its own result* (reply streams are parsed, not counted).
 """
 
 from __future__ import annotations
@@ -25,6 +32,7 @@ import ast
 import inspect
 import struct
 import textwrap
+import time
 
 import pyarrow as pa
 
@@ -55,7 +63,8 @@ ASSUMPTIONS = [
     "int(<bytes>) := returns some int or raises ValueError; int(None) raises TypeError (C-level parser; CrossHair realises int(symbolic bytes))",
     "ShmSegment.attach := returns a segment | raises FileNotFoundError | PermissionError | ValueError | OSError | struct.error (segment smaller than the header)",
     "the Arrow reader yields exactly one batch then StopIteration (well-framed single-batch request stream)",
-    "typed errors RpcError / VersionError raised by _read_request are answered by serve_one and the loop continues (checked against the live source by serve_loop_answers_typed_errors)",
+    "typed errors RpcError / VersionError raised by _read_request are answered by serve_one and the loop continues (checked against the live source and, with two real requests, against the real server by serve_loop_answers_typed_errors)",
+    "a closed ShmSegment fails untyped when used (real class: ``assert buf is not None`` in read_buffer); the fake segment does the same",
 ]
 
 # ---------------------------------------------------------------------------
@@ -179,6 +188,10 @@ class _IpcNS:
         raise HarnessModelError(f"ipc.{name} is not modelled")
 
 
+class _ClosedSegmentUse(AssertionError):
+    """What using a closed ShmSegment amounts to on the real class (an untyped failure)."""
+
+
 class _Seg:
     """Fake ShmSegment: counts free/close; free may raise ValueError (no allocation at that offset)."""
 
@@ -191,6 +204,9 @@ class _Seg:
         self.size = size
 
     def read_buffer(self, offset: int, length: int) -> tuple:
+        if self.closed:
+            # the real segment has no buffer any more (``assert buf is not None`` / subscript of None)
+            raise _ClosedSegmentUse("read_buffer on a segment that has been closed")
         return ("region", offset, length)
 
     def free(self, offset: int) -> None:
@@ -278,7 +294,20 @@ _STUB_ATTACH = "ShmSegment.attach := segment | FileNotFoundError | PermissionErr
 _STUB_RESOLVE = "_deserialize_from_shm := fake batch | pa.ArrowInvalid; strip_keys / merge_metadata := opaque; segment := fake (read_buffer token, free ok | ValueError, close)"
 
 
+_WHY = {"why": ""}  # what the condition objected to on its last run (names the finding; read after the concrete re-run)
+
+
+def _fail(reason: str) -> bool:
+    _WHY["why"] = reason
+    return False
+
+
+def _sig(prefix: str, default: str) -> str:
+    return prefix + (_WHY["why"] or default)
+
+
 def _reset() -> None:
+    _WHY["why"] = ""
     _H.clear()
     wire._current_request_batch.set(None)
     wire._current_request_metadata.set(None)
@@ -323,6 +352,53 @@ def _request_bytes(extra: dict[bytes, bytes] | None, nrows: int, ncols: int, non
         else:
             w.write_batch(batch, custom_metadata=pa.KeyValueMetadata(dict(extra or {})))
     return sink.getvalue().to_pybytes()
+
+
+_REPLY_TIMEOUT_S = 10.0  # only ever waited out when the server neither answers nor dies (the hang this property is about)
+_EOS = b"\xff\xff\xff\xff\x00\x00\x00\x00"
+
+
+def _complete_streams(data: bytes) -> list:
+    """The complete Arrow IPC streams (schema .. explicit end-of-stream marker) at the start of *data*, each as a
+    list of (batch, custom_metadata).  Stops at the first incomplete / undecodable stream."""
+    out: list = []
+    src = pa.BufferReader(data)
+    while src.tell() < len(data):
+        items = []
+        try:
+            r = pa.ipc.open_stream(src)
+            while True:
+                try:
+                    items.append(r.read_next_batch_with_custom_metadata())
+                except StopIteration:
+                    break
+        except Exception:  # noqa: BLE001
+            break
+        pos = src.tell()
+        if data[pos - len(_EOS):pos] != _EOS:
+            break  # ran into the end of what has arrived so far, not into the stream's own end marker
+        out.append(items)
+    return out
+
+
+def _is_add_answer(stream: list) -> bool:
+    """Is this reply the result of add(1, 1)?  (log batches, if any, are skipped)"""
+    for batch, _cm in stream:
+        if batch.num_rows == 1 and batch.num_columns == 1:
+            try:
+                if batch.column(0)[0].as_py() == 2:
+                    return True
+            except Exception:  # noqa: BLE001
+                return False
+    return False
+
+
+def _describe_reply(stream: list) -> str:
+    for batch, cm in stream:
+        if cm is not None and cm.get(md.LOG_LEVEL_KEY) is not None:
+            msg = cm.get(md.LOG_MESSAGE_KEY) if hasattr(md, "LOG_MESSAGE_KEY") else None
+            return f"an error/log batch ({bytes(cm.get(md.LOG_LEVEL_KEY))!r}: {bytes(msg)[:160]!r})" if msg is not None else "an error/log batch"
+    return f"{len(stream)} batch(es) that are not its result"
 
 
 def _serve_and_observe(extra_md: dict[bytes, bytes], rows: int, ncols: int = 2, static_region: str | None = None, md_none: bool = False, expect_survive: bool = True,
@@ -383,39 +459,48 @@ def _serve_and_observe(extra_md: dict[bytes, bytes], rows: int, ncols: int = 2, 
         th.start()
         fd = client_t.reader.fileno()
 
-        def reply(timeout: float) -> int:
-            n = 0
-            waited = 0.0
-            while waited < timeout:
+        got = bytearray()  # everything the server has written on this connection, in order
+
+        def replies(want: int, timeout: float = _REPLY_TIMEOUT_S) -> list:
+            """Read until *want* complete reply streams have arrived (a reply = one IPC stream), the server thread is
+            gone and silent, or *timeout* passes without a complete reply.  Returns the complete streams so far."""
+            deadline = time.monotonic() + timeout
+            while True:
+                done = _complete_streams(bytes(got))
+                if len(done) >= want or time.monotonic() > deadline:
+                    return done
                 ready, _, _ = select.select([fd], [], [], 0.05)
-                waited += 0.05
                 if ready:
                     chunk = os.read(fd, 1 << 20)
-                    n += len(chunk)
                     if not chunk:
-                        break
-                    timeout = waited + 0.2  # drain what follows
-                elif n or not th.is_alive():
-                    break
-            return n
+                        return _complete_streams(bytes(got))
+                    got.extend(chunk)
+                elif not th.is_alive():
+                    return done
 
+        sent = 0
         for pmd in prelude or []:
             client_t.writer.write(_request_bytes(pmd, 1, 2))
             client_t.writer.flush()
-            if not reply(3.0):
+            sent += 1
+            if len(replies(sent)) < sent:
                 return None  # the history itself is not served on this tree: not this scenario
+        before = len(got)
         client_t.writer.write(raw_request if raw_request is not None else request(extra_md, rows, md_none))
         client_t.writer.flush()
-        first = reply(3.0)
-        second = None
-        if first:
+        sent += 1
+        answered = len(replies(sent)) >= sent
+        any_bytes = len(got) > before
+        followup = None
+        if answered:
             good = {md.RPC_METHOD_KEY: b"add", md.REQUEST_VERSION_KEY: md.REQUEST_VERSION}
             try:
                 client_t.writer.write(_request_bytes(good, 1, 2))
                 client_t.writer.flush()
-                second = reply(3.0)
+                r = replies(sent + 1)
+                followup = r[sent] if len(r) > sent else None
             except OSError:
-                second = 0
+                followup = None
         th.join(0.2)
         alive = th.is_alive()
         try:
@@ -423,13 +508,16 @@ def _serve_and_observe(extra_md: dict[bytes, bytes], rows: int, ncols: int = 2, 
         except Exception:  # noqa: BLE001
             pass
         th.join(1.0)
-        if first == 0:
+        what = f"request (metadata {extra_md!r}, {rows} rows)" if raw_request is None else f"request ({len(raw_request)} raw bytes)"
+        if not answered:
             return (
-                f"no reply to the request (metadata {extra_md!r}, {rows} rows); server thread: {end.get('how', 'still blocked')}; "
+                f"no {'complete ' if any_bytes else ''}reply to the {what}; server thread: {end.get('how', 'still blocked')}; "
                 f"follow-up call on the same connection: {'not possible, serve loop is gone' if not alive else 'not attempted'}"
             )
-        if expect_survive and not second:
-            return f"request (metadata {extra_md!r}, {rows} rows) answered ({first} bytes) but the connection did not survive it: follow-up call got no reply; server thread: {end.get('how', 'still running')}"
+        if expect_survive and followup is None:
+            return f"{what} answered but the connection did not survive it: follow-up call add(1, 1) got no reply; server thread: {end.get('how', 'still running')}"
+        if expect_survive and not _is_add_answer(followup):
+            return f"{what} answered but the connection is no longer usable: the follow-up call add(1, 1) was answered with {_describe_reply(followup)} instead of its own result"
         return None
     finally:
         if seg is not None:
@@ -472,35 +560,14 @@ def _md_from_args(a: dict) -> dict[bytes, bytes]:
 
 def _replay_dispatch(a: dict) -> str | None:
     rows, ncols, md_none = a.get("rows", 1), a.get("ncols", 2), a.get("md_none", False)
-    dead = _serve_and_observe(_md_from_args(a), rows, ncols, md_none=md_none)
-    if dead or "has_method" not in a:
-        return dead
-    # un-stubbed _read_request (real pyarrow reader) on the same request: accepted <=> well-formed
-    from io import BytesIO
-
-    mdd = _md_from_args(a)
-    well_formed = (not md_none) and a["has_method"] and a["has_version"] and bytes(a["version"]) == md.REQUEST_VERSION and (ncols == 0 or rows == 1)
-    try:
-        bytes(a["method"]).decode()
-        utf8 = True
-    except UnicodeDecodeError:
-        utf8 = False
-    try:
-        got = wire._read_request(BytesIO(_request_bytes(mdd, rows, ncols, md_none)))
-    except (RpcError, VersionError) as e:
-        if well_formed and utf8:
-            return f"well-formed request (metadata {mdd!r}, {rows} rows, {ncols} columns) rejected with {type(e).__name__}: {e}"
-        return None
-    except Exception as e:  # noqa: BLE001
-        return f"_read_request raised {type(e).__name__}: {e} for metadata {mdd!r}"
-    if not (well_formed and utf8):
-        return f"malformed request accepted: metadata {None if md_none else mdd!r}, {rows} rows, {ncols} columns -> {got!r}"
-    return None
+    # C05 is indifferent to *which* answer a request gets (a response or a typed error): the judgement is the real
+    # server's — the request is answered, and the follow-up call on the same connection gets its own result.
+    return _serve_and_observe(_md_from_args(a), rows, ncols, md_none=md_none)
 
 
 @cond(q=60, t=240, stubs=[_STUB_READER], encoded=[wire._read_request], replay=_replay_dispatch,
       bound="metadata None | empty | {method, request_version} present/absent, values any bytes len<=3; rows 0..3; columns 0..2",
-      signature=lambda args, conc: "C05:read-request:untyped-exception")
+      signature=lambda args, conc: _sig("C05:read-request:", "untyped-exception"))
 def read_request_method_version(md_none: bool, other_keys: bool, has_method: bool, method: bytes, has_version: bool, version: bytes, rows: int, ncols: int) -> bool:
     """
     pre: len(method) <= 3 and len(version) <= 3 and 0 <= rows <= 3 and 0 <= ncols <= 2
@@ -517,24 +584,13 @@ def read_request_method_version(md_none: bool, other_keys: bool, has_method: boo
         exc = e
     kind = _classify(exc)
     if kind not in ("return", "typed"):
-        return False
+        return _fail("untyped-exception" if kind == "other" else "arrow-invalid-for-well-framed-request")
     if _H["reader"].n < 2:
         # rejected or accepted, the request stream must have been read past its EOS: on a pipe the
         # reader is shared, left-over bytes would be parsed as the start of the next request
-        return False
-    well_formed = (not md_none) and has_method and has_version and version == md.REQUEST_VERSION and (ncols == 0 or rows == 1)
-    if kind == "return":
-        # a request is accepted only when it is well-formed, and then with the decoded method name
-        if not well_formed or out is None:
-            return False
-        return out[0] == method.decode() and len(out[1]) == ncols
-    # typed error: the request was not acceptable (or the method name is not UTF-8)
-    if well_formed:
-        try:
-            method.decode()
-        except UnicodeDecodeError:
-            return True
-        return False
+        return _fail("request-stream-not-drained")
+    # Accepted or refused with a typed error: C05 allows either answer for any request (which requests are
+    # *acceptable* is C06's question), so nothing more is asserted.
     return True
 
 
@@ -555,12 +611,12 @@ def read_request_trace_context(has_tp: bool, tp: bytes, has_ts: bool, ts: bytes,
     _H["batch"] = _Batch(ncols, 1)
     _H["md"] = _MD([_entry("method", True, b"add"), _entry("version", True, md.REQUEST_VERSION), _entry("tp", has_tp, tp), _entry("ts", has_ts, ts)], False)
     try:
-        out = _read_request(object())
+        _read_request(object())
     except (RpcError, VersionError):
         return True  # answered
     except Exception:  # noqa: BLE001
         return False
-    return out[0] == "add"
+    return True  # accepted (what it is dispatched to is not C05's subject)
 
 
 # ---------------------------------------------------------------------------
@@ -571,19 +627,18 @@ def read_request_trace_context(has_tp: bool, tp: bytes, has_ts: bool, ts: bytes,
 def _replay_pointer(a: dict) -> str | None:
     region = "valid"
     if a.get("has_off") and a.get("off_ok", True) and a.get("has_len") and a.get("len_ok", True):
-        if not a.get("decode_ok", True):
-            region = "none"  # offsets as given: whatever is there
-        elif a.get("free_raises"):
+        if a.get("free_raises"):
             region = "stale"
     else:
-        region = "none"
-    # a region that does not decode is "bytes that are not a valid Arrow IPC stream": answered, then the loop may end
-    return _serve_and_observe(_md_from_args(a), a.get("rows", 0), a.get("ncols", 2), static_region=region, expect_survive=region != "none")
+        region = "none"  # absent / non-numeric pointer values: no region is named at all
+    # The item's precondition fixes decode_ok: whatever region is named does decode, so every request here is a
+    # well-framed request with (at worst) malformed metadata — it must be answered *and* the connection must go on.
+    return _serve_and_observe(_md_from_args(a), a.get("rows", 0), a.get("ncols", 2), static_region=region, expect_survive=True)
 
 
 @cond(q=60, t=240, stubs=[_STUB_READER, _STUB_INT, _STUB_RESOLVE], encoded=[wire._read_request, shm_mod.resolve_shm_batch, shm_mod.is_shm_pointer_batch],
       replay=_replay_pointer, bound="valid method/version; shm_offset / shm_length / log_level present/absent; numeric values accepted (any int) or rejected by int(); rows 0..3; columns 0..2; resolved rows 0..3",
-      signature=lambda args, conc: "C05:shm-pointer:untyped-exception")
+      signature=lambda args, conc: _sig("C05:shm-pointer:", "untyped-exception"))
 def read_request_shm_pointer(has_off: bool, off_ok: bool, off: int, has_len: bool, len_ok: bool, length: int, has_log: bool, rows: int, ncols: int,
                              decode_ok: bool, resolved_rows: int, free_raises: bool) -> bool:
     """
@@ -607,12 +662,14 @@ def read_request_shm_pointer(has_off: bool, off_ok: bool, off: int, has_len: boo
         exc = e
     kind = _classify(exc)
     if kind == "other":
-        return False
+        return _fail("untyped-exception")
     if kind == "arrow":
         # only the Arrow stub may be the source: undecodable region bytes
-        return not decode_ok
-    # the static segment is caller-owned: never closed by the request path
-    return seg.closed == 0 and len(seg.freed) <= 1
+        return decode_ok is False or _fail("arrow-invalid-for-decodable-request")
+    # The static segment belongs to the connection: a request path that closes it leaves every later pointer
+    # request on this connection with an untyped failure (see _Seg.read_buffer).  (How often the region is
+    # released is resource accounting, not C05.)
+    return seg.closed == 0 or _fail("static-segment-closed-by-request")
 
 
 # ---------------------------------------------------------------------------
@@ -663,10 +720,12 @@ def read_request_shm_pointer_garbage_region(off: int, length: int, fail_kind: in
             _read_request(object(), shm=seg)
     except (RpcError, VersionError):
         # the request stream itself was valid IPC and has been drained: a typed answer, the connection goes on
-        return seg.closed == (1 if owned else 0) and len(seg.freed) <= 1
+        # (a static / cached segment must stay usable for the connection's later requests; whether a per-request
+        # attachment is detached, and how often the region is released, is resource accounting, not C05)
+        return owned or seg.closed == 0
     except Exception:  # noqa: BLE001
         return False  # incl. ArrowInvalid / StopIteration: both END the serve loop (the latter without any reply)
-    return False  # an undecodable region cannot yield a request
+    return True  # accepted after all (e.g. served inline): a response is as good an answer as a typed error for C05
 
 
 def _replay_empty_stream(a: dict) -> str | None:
@@ -790,26 +849,17 @@ def maybe_attach_never_raises(md_none: bool, has_name: bool, name: bytes, has_si
     _H["attach"] = attach
     m = None if md_none else _MD([_entry("seg_name", has_name, name), _entry("seg_size", has_size, _Num(size_ok, size))], False)
     try:
-        got = _maybe_attach(m, _KINDS[kind])
+        _maybe_attach(m, _KINDS[kind])
     except Exception:  # noqa: BLE001
-        return False
-    calls = _H.get("attach_calls", 0)
-    if _KINDS[kind] == TransportKind.HTTP:
-        return got is None and calls == 0  # never attaches for a remote client
-    if got is not None:
-        return calls == 1 and attach == 0 and got is _H.get("attached")
-    return calls == 0 or attach != 0
-
-
-def _seg_open(seg: object) -> bool:
-    try:
-        return seg.buf is not None  # type: ignore[attr-defined]
-    except Exception:  # noqa: BLE001
-        return False
+        return False  # both call sites in serve_one are unguarded: the serve loop dies without a reply
+    # (How many attach attempts are made, what is returned, and the refusal to attach over HTTP are not C05's
+    # subject; what the request path does with the result is decided by read_request_dynamic_attach / refresh.)
+    return True
 
 
 def _replay_refresh(a: dict) -> str | None:
-    """Pipe replay first; then the real _ConnectionShm over real POSIX segments (cache consistency)."""
+    """Real connections only: the request as produced; with the attach outcome staged on real POSIX segments; as the
+    second request of a history whose first request got a real segment cached; and followed by a pointer request."""
     dead = _replay_attach(a)
     if dead:
         return dead
@@ -846,52 +896,52 @@ def _replay_refresh(a: dict) -> str | None:
                     sg.unlink()
                 except Exception:  # noqa: BLE001
                     pass
-    owner_old = shm_mod.ShmSegment.create(shm_mod.HEADER_SIZE + 65536)
-    owner_new = shm_mod.ShmSegment.create(shm_mod.HEADER_SIZE + 65536)
-    conn = srv._ConnectionShm()
-    staged: list = []
+        # ... and the request after that one: whatever refresh did to the cache, a later pointer request is answered
+        return _replay_refresh_then_pointer(a)
+    return None
+
+
+def _replay_refresh_then_pointer(a: dict) -> str | None:
+    """Three requests on one real connection: (1) advertises a real segment (cached), (2) the counterexample's request
+    naming the same segment, or another one with the chosen attach outcome staged for real, (3) an offset-only
+    pointer request.  Whatever the cache policy is, (3) must be answered and the connection must go on."""
+    good = {md.RPC_METHOD_KEY: b"add", md.REQUEST_VERSION_KEY: md.REQUEST_VERSION}
+    first = shm_mod.ShmSegment.create(shm_mod.HEADER_SIZE + 262144)
     try:
-        old = None
-        if a.get("cached"):
-            old = shm_mod.ShmSegment.attach(owner_old.name, owner_old.size, track=False)
-            conn.segment, conn.name = old, bytes(a["cached_name"])
-        ok = a.get("attach") == 0
-        env = _AttachEnv(int(a.get("attach", 1)))
-        env.__enter__()
-        staged.append(env)
-        name = owner_new.name.encode() if ok else (env.name if env.name is not None else b"verif-no-such-segment")
-        if a.get("cached") and bytes(a["cached_name"]) == bytes(a["name"]):
-            name = bytes(a["cached_name"])  # same name as cached: refresh must be a no-op
-        fields = {md.SHM_SEGMENT_NAME_KEY: name}
-        if a.get("has_size"):
-            fields[md.SHM_SEGMENT_SIZE_KEY] = str(owner_new.size).encode() if a.get("size_ok") else b"x"
-        req = pa.KeyValueMetadata(fields)
-        try:
-            conn.refresh(req, TransportKind.UNIX if a.get("unix") else TransportKind.PIPE)
-        except Exception as e:  # noqa: BLE001
-            return f"_ConnectionShm.refresh raised {type(e).__name__}: {e}"
-        switched = conn.segment is not old and conn.segment is not None
-        if switched:
-            if conn.name != name or not _seg_open(conn.segment) or (old is not None and _seg_open(old)):
-                return f"after switching segments the cache holds name {conn.name!r} (advertised {name!r}); old attachment still open: {old is not None and _seg_open(old)}"
-        elif old is not None and (conn.segment is None or not _seg_open(old)):
-            return f"refresh for {name!r} did not attach anything but detached the cached segment {a['cached_name']!r}: later offset-only batches can no longer be resolved"
+        fields, schema = _req_schema(2)
+        full = pa.RecordBatch.from_arrays([pa.array([1], type=pa.int64()) for _ in fields], schema=schema)
+        res = first.allocate_and_write(full)
+        if res is None:
+            return None
+        m1 = dict(good)
+        m1[md.SHM_SEGMENT_NAME_KEY], m1[md.SHM_SEGMENT_SIZE_KEY] = first.name.encode(), str(first.size).encode()
+        with _AttachEnv(int(a.get("attach", 1))) as env:
+            same = bool(a.get("cached")) and bytes(a.get("cached_name", b"")) == bytes(a.get("name", b""))
+            m2 = dict(good)
+            if not a.get("md_none") and a.get("has_name"):
+                if same:
+                    m2[md.SHM_SEGMENT_NAME_KEY] = first.name.encode()
+                elif env.name is not None:
+                    m2[md.SHM_SEGMENT_NAME_KEY] = env.name
+                if a.get("has_size") and md.SHM_SEGMENT_NAME_KEY in m2:
+                    m2[md.SHM_SEGMENT_SIZE_KEY] = str(first.size if same else env.size).encode() if a.get("size_ok") else b"x"
+            m3 = dict(good)
+            m3[md.SHM_OFFSET_KEY], m3[md.SHM_LENGTH_KEY] = str(res[0]).encode(), str(res[1]).encode()
+            dead = _serve_and_observe({}, 0, 2, prelude=[m1, m2], raw_request=_request_bytes(m3, 0, 2))
+            if dead:
+                return f"after a request cached segment {first.name!r} and a second one named {m2.get(md.SHM_SEGMENT_NAME_KEY)!r}, an offset-only pointer request: {dead}"
         return None
     finally:
-        conn.close()
-        for env_ in staged:
-            env_.__exit__()
-        for sg in (owner_old, owner_new):
-            try:
-                sg.close()
-                sg.unlink()
-            except Exception:  # noqa: BLE001
-                pass
+        try:
+            first.close()
+            first.unlink()
+        except Exception:  # noqa: BLE001
+            pass
 
 
 @cond(q=60, t=240, stubs=[_STUB_INT, _STUB_ATTACH], encoded=[srv._ConnectionShm.refresh, srv._maybe_attach_shm], replay=_replay_refresh,
-      bound="history on one connection as an arbitrary cache pre-state (empty | segment of any size cached under a name, bytes len<=3) x next request naming the same / another / no segment with size absent | malformed | any int; PIPE/UNIX",
-      signature=lambda args, conc: "C05:attach:exception-escapes")
+      bound="history on one connection as an arbitrary cache pre-state (empty | segment of any size cached under a name, bytes len<=3) x next request naming the same / another / no segment with size absent | malformed | any int; PIPE/UNIX; then one offset-only pointer request resolved against whatever the cache holds",
+      signature=lambda args, conc: _sig("C05:refresh:", "exception-escapes"))
 def refresh_never_raises(md_none: bool, has_name: bool, name: bytes, has_size: bool, size_ok: bool, size: int, unix: bool, attach: int, cached: bool, cached_name: bytes,
                          cached_size: int = 0) -> bool:
     """
@@ -907,22 +957,30 @@ def refresh_never_raises(md_none: bool, has_name: bool, name: bytes, has_size: b
     conn = _Conn(old, cached_name if cached else None)
     m = None if md_none else _MD([_entry("seg_name", has_name, name), _entry("seg_size", has_size, _Num(size_ok, size))], False)
     try:
-        r = conn.refresh(m, TransportKind.UNIX if unix else TransportKind.PIPE)
+        conn.refresh(m, TransportKind.UNIX if unix else TransportKind.PIPE)
     except Exception:  # noqa: BLE001
-        return False
-    if r is not None:
-        return False
-    new = _H.get("attached")
-    if new is not None:
-        # switched: the old attachment is detached exactly once, the new one cached under the advertised name
-        return conn.segment is new and conn.name == name and (old is None or old.closed == 1)
-    # nothing attached: the cache is untouched
-    return conn.segment is old and (old is None or old.closed == 0) and (conn.name == cached_name if cached else conn.name is None)
+        return _fail("exception-escapes")  # serve_one calls it outside every handler: the loop dies without a reply
+    # The cache policy (what is kept or dropped, when the old attachment is detached, the return value) is the
+    # code's own business.  What C05 needs of the state refresh leaves behind is that the connection's *next*
+    # request is still answered: an offset-only pointer request is resolved against whatever is cached now.
+    seg = conn.segment
+    if seg is None:
+        return True
+    _H["batch"] = _Batch(2, 0)
+    _H["decode_ok"] = True
+    _H["resolved_rows"] = 1
+    _H["md"] = _MD([_entry("method", True, b"add"), _entry("version", True, md.REQUEST_VERSION), _entry("off", True, _Num(True, 0)), _entry("len", True, _Num(True, 0))], False)
+    exc: BaseException | None = None
+    try:
+        _read_request(object(), shm=seg)
+    except Exception as e:  # noqa: BLE001
+        exc = e
+    return _classify(exc) in ("return", "typed") or _fail("cached-segment-unusable-for-next-request")
 
 
 @cond(q=60, t=240, stubs=[_STUB_READER, _STUB_INT, _STUB_ATTACH, _STUB_RESOLVE], encoded=[wire._read_request, srv._maybe_attach_shm, shm_mod.resolve_shm_batch], replay=_replay_attach,
       bound="pointer request (0 rows) naming its own segment: name bytes len<=3, size/offset/length accepted (any int) or rejected; attach outcome 0..5; decode ok | ArrowInvalid",
-      signature=lambda args, conc: "C05:attach:exception-escapes")
+      signature=lambda args, conc: _sig("C05:read-request-attach:", "untyped-exception"))
 def read_request_dynamic_attach(has_name: bool, name: bytes, has_size: bool, size_ok: bool, size: int, off: int, length: int, attach: int, decode_ok: bool, rows: int) -> bool:
     """
     pre: len(name) <= 3 and 0 <= attach <= 5 and 0 <= rows <= 1
@@ -945,13 +1003,11 @@ def read_request_dynamic_attach(has_name: bool, name: bytes, has_size: bool, siz
         exc = e
     kind = _classify(exc)
     if kind == "other":
-        return False
+        return _fail("untyped-exception")
     if kind == "arrow" and decode_ok:
-        return False
-    seg = _H.get("attached")
-    if seg is not None:
-        # a segment attached for this request is detached again before returning, its region released at most once
-        return seg.closed == 1 and len(seg.freed) <= 1
+        return _fail("arrow-invalid-for-decodable-request")
+    # (whether the per-request attachment is detached again, and how often its region is released, is resource
+    # accounting — no request goes unanswered over it — and not asserted)
     return True
 
 
@@ -988,44 +1044,63 @@ def _handler_names(fn: object, around_call: str) -> list[list[str]]:
             t = h.type
             elts = t.elts if isinstance(t, ast.Tuple) else ([t] if t is not None else [])
             tags = (["<returns>"] if any(isinstance(x, ast.Return) for x in h.body) else []) + (["<raises>"] if any(isinstance(x, ast.Raise) for x in h.body) else []) + (["<break>"] if any(isinstance(x, ast.Break) for x in h.body) else [])
-            out.append([ast.unparse(e) for e in elts] + tags)
+            if any(isinstance(c, ast.Call) and _call_name(c) == "_write_error_stream" for s in h.body for c in ast.walk(s)):
+                tags.append("<writes-error>")
+            out.append(([ast.unparse(e) for e in elts] if elts else ["<bare>"]) + tags)
     return out
 
 
-@task(q=10, t=10, encoded=[srv.RpcServer.serve_one, srv.RpcServer.serve], bound="live source", engine="assumption-check")
+@task(q=30, t=30, encoded=[srv.RpcServer.serve_one, srv.RpcServer.serve], bound="live source of serve_one / serve + two typed-error requests on the real server", engine="assumption-check")
 def serve_loop_answers_typed_errors(budget: float, replay=None) -> dict:
-    """ASSUMPTION CHECK, not a deciding step: the conditions assume that serve_one answers typed
-    errors and returns; this item re-reads that from the live source (the z3 query is a trivial
-    propositional restatement and adds nothing a set comparison would not).
+    """ASSUMPTION CHECK for the conditions above (they equate "typed error out of _read_request" with
+    "answered, connection goes on", and "any other exception" with "the serve loop dies or ends"):
 
-    serve_one must catch RpcError and VersionError around _read_request, write an error stream and
-    *return*; z3 checks that the handler set read from the AST covers both typed classes and that
-    the serve loop's break list contains none of the untyped classes the conditions reject.
+    * source shape (AST of the live ``serve_one`` / ``serve``; the z3 query is a propositional restatement):
+      the handler around ``_read_request`` that catches RpcError / VersionError *calls _write_error_stream*,
+      returns and does not re-raise; neither class is in a handler of the serve loop (which would end it);
+      no handler on either level is broader than the classes the conditions know about (``Exception`` /
+      bare — then "other" would no longer mean "dies" and the conditions would be out of date);
+    * behaviour, on the real server over a pipe: a request without ``vgi_rpc.method`` (RpcError) and one with a
+      wrong request version (VersionError) are answered and the follow-up call gets its own result.
+
+    VIOLATION when the real server fails the behaviour; INCONCLUSIVE when only the source shape is not the
+    assumed one (the conditions' classification then needs a look); CONFIRMED when both hold.
     """
-    import time
-
     import z3
 
     t0 = time.monotonic()
     one = _handler_names(srv.RpcServer.serve_one, "_read_request")
     loop = _handler_names(srv.RpcServer.serve, "serve_one")
-    answered = {n for h in one if "<returns>" in h for n in h}
-    breaks = {n for h in loop for n in h}
-    # booleans: class c is answered-and-continues; query: exists typed class not answered
+    answered = {n for h in one if "<returns>" in h and "<writes-error>" in h and "<raises>" not in h for n in h}
+    loop_caught = {n for h in loop for n in h if not n.startswith("<")}
+    broad = sorted({n for h in one + loop for n in h if n in ("Exception", "BaseException", "<bare>")})
     typed = ["RpcError", "VersionError"]
     s = z3.Solver()
-    vars_ = {c: z3.Bool(c) for c in typed}
+    ok_vars = []
     for c in typed:
-        s.add(vars_[c] == z3.BoolVal(c in answered))
-    s.add(z3.Not(z3.And(*vars_.values())))
+        a_, l_ = z3.Bool("answered_" + c), z3.Bool("ends_loop_" + c)
+        s.add(a_ == z3.BoolVal(c in answered), l_ == z3.BoolVal(c in loop_caught))
+        ok_vars.append(z3.And(a_, z3.Not(l_)))
+    b_ = z3.Bool("broad_handler")
+    s.add(b_ == z3.BoolVal(bool(broad)))
+    s.add(z3.Not(z3.And(*ok_vars, z3.Not(b_))))  # exists a way in which the assumed shape fails?
     r = s.check()
-    res = {"queries": 1, "discharged": 1 if r == z3.unsat else 0, "solver_s": round(time.monotonic() - t0, 3),
-           "samples": [{"serve_one handlers around _read_request": one, "serve handlers around serve_one": loop}]}
-    if r == z3.unsat:
-        res["verdict"] = "CONFIRMED"
-        res["detail"] = f"answered-and-continue: {sorted(answered)}; loop-ending: {sorted(breaks)}"
+    shape_ok = r == z3.unsat
+    # behaviour on the real server (never stubbed)
+    good_v = {md.RPC_METHOD_KEY: b"add", md.REQUEST_VERSION_KEY: b"\x00bad"}
+    real = [("RpcError (no vgi_rpc.method)", _serve_and_observe({md.REQUEST_VERSION_KEY: md.REQUEST_VERSION}, 1, 2)),
+            ("VersionError (wrong request version)", _serve_and_observe(good_v, 1, 2))]
+    failed = [(what, why) for what, why in real if why]
+    res: dict = {"queries": 1, "discharged": 1 if shape_ok else 0, "solver_s": round(time.monotonic() - t0, 3),
+                 "samples": [{"serve_one handlers around _read_request": one, "serve handlers around serve_one": loop}]}
+    if failed:
+        res.update(verdict="VIOLATION", replayed=True, signature="C05:serve-one:typed-error-not-answered",
+                   cex={"typed_error": failed[0][0]}, detail=f"{failed[0][0]}: {failed[0][1]}")
+    elif shape_ok:
+        res.update(verdict="CONFIRMED", detail=f"answered-and-continue: {sorted(answered)}; loop-ending: {sorted(loop_caught)}")
     elif r == z3.sat:
-        res.update(verdict="INCONCLUSIVE", detail=f"serve_one no longer answers every typed error and returns: handlers {one}")
+        res.update(verdict="INCONCLUSIVE", detail=f"the real server answers typed errors, but the source no longer has the assumed shape (typed answered+return: {sorted(answered)}; "
+                                                  f"caught by the loop: {sorted(loop_caught)}; broad handlers: {broad}): the conditions' typed/other classification needs a review; handlers {one} / {loop}")
     else:
         res.update(verdict="INCONCLUSIVE", detail="solver unknown")
     return res
